@@ -147,4 +147,55 @@ acc = Acc({"name": "toy-intr"})
 npts = seqexplore.interrupted(acc, ("t", {"i": 1}), [("t", {"i": 7}), ("t", {"i": 2})], tab_op, (path3,), d, max_hits=3)
 assert npts >= 5 and set(acc.violations) == {"toy/table/after-interrupted-call"}, (npts, set(acc.violations))
 case = acc.violations["toy/table/after-interrupted-call"]["first"][0]["case"] if "first" in acc.violations["toy/table/after-interrupted-call"] else None
+
+# ---- E7: a maintenance step run by one call out of many is found as a "rare history position"
+src4 = '''
+N = 0
+PAIR = [1, 1]
+def step(i):
+    global N
+    N += 1
+    if N % 50 == 0:
+        PAIR[0] = N
+        PAIR[1] = N
+    return PAIR[0] == PAIR[1]
+'''
+path4 = os.path.join(d, "toy_periodic.py"); open(path4, "w").write(src4)
+spec = importlib.util.spec_from_file_location("toy_periodic", path4); toy4 = importlib.util.module_from_spec(spec); spec.loader.exec_module(toy4)
+def per_op(kind, case):
+    return [] if toy4.step(case["i"]) else [("toy/periodic", "inconsistent pair")]
+marks = seqexplore.rare_points([("s", {"i": i}) for i in range(120)], per_op, (path4,))
+assert [m[0] for m in marks] == [49], marks
+
+# ---- visibility reduction (vf/sched.line_visible): the same outcomes with fewer executions; a race that needs TWO preemptions
+# (a lazily grown table: a stale append lands at a low index only if the other thread is stopped in the middle of its own loop)
+src5 = '''
+T = [1]
+def dbl(x):
+    y = x + x
+    z = y
+    return z
+def grow(i):
+    while len(T) <= i:
+        T.append(dbl(T[-1]))
+    return T[i]
+'''
+path5 = os.path.join(d, "toy_grow.py"); open(path5, "w").write(src5)
+def explore_grow(bound, visible):
+    outs = set()
+    def run(ctx):
+        spec = importlib.util.spec_from_file_location("toy_grow", path5); toy5 = importlib.util.module_from_spec(spec); spec.loader.exec_module(toy5)
+        sch = Sched(ctx, [lambda: toy5.grow(2), lambda: toy5.grow(3)], lambda code: code.co_filename == path5 and code.co_name != "<module>", visible=visible)
+        sch.run()
+        return tuple(toy5.T[:5])
+    ex = Explorer(run, cache=False, bound=bound, order="dfs"); ex.check = lambda c, o: outs.add(o); ex.explore()
+    return outs, ex.executions
+full1, nf1 = explore_grow(1, False)
+full2, nf2 = explore_grow(2, False)
+vis1, nv1 = explore_grow(1, True)
+vis2, nv2 = explore_grow(2, True)
+assert full1 == vis1 and full2 == vis2, (full1, vis1, full2, vis2)          # same reachable outcomes with and without the reduction
+assert full1 <= full2 and len(full2) > 1, (full1, full2)
+assert nv2 < nf2 and nv1 < nf1, (nv1, nf1, nv2, nf2)
+print("visibility reduction: executions", (nf1, nv1), (nf2, nv2), "outcomes", len(full1), len(full2))
 print("engines ok")
